@@ -19,7 +19,8 @@ Verdict(C) ==
   ELSE IF ~MeshesWellFormed(C) THEN Pre("MeshesWellFormed")
   ELSE IF ~FamiliesOK(C) THEN Pre("FamiliesOK")
   ELSE IF ~VirtOK(C) THEN Pre("VirtOK")
-  ELSE UNION {
+  ELSE IF ~TuplesOK(C) THEN Pre("TuplesOK")
+  ELSE UNION {TupFails(C, t) : t \in 1..Len(C.tuples)} \cup UNION {
          UNION {GateFails(C, g[1], g[2], e) : g \in GatePairs(C)}
          \cup UNION {MuxFails(C, lp, e) : lp \in 1..(NLayers(C) - 1)}
          \cup UNION {SplFails(C, lv, e) : lv \in BaseLevels(C)}
@@ -31,7 +32,7 @@ MultiDim(C, M, sig, mir) ==
   Cardinality({d \in 0..C.dim : \E k \in 1..Len(mir) : DofOffset(M, sig, d) <= mir[k] /\ mir[k] < DofOffset(M, sig, d + 1)}) >= 2
 Info(C) ==
   IF ~(LayerShapeOK(C) /\ LevelsOK(C) /\ MeshesWellFormed(C) /\ FamiliesOK(C) /\ VirtOK(C))
-  THEN [gate |-> 0, gate_multidim |-> 0, child |-> 0, child_multidim |-> 0, patch |-> 0, values |-> 0, layers |-> 0]
+  THEN [gate |-> 0, gate_multidim |-> 0, child |-> 0, child_multidim |-> 0, patch |-> 0, values |-> 0, layers |-> 0, tuples |-> 0]
   ELSE
     LET recs == {<<w, e, i>> : w \in 0..(C.nr - 1), e \in 1..Len(C.els), i \in 1..Max({Len(RV(C, u)) : u \in 0..(C.nr - 1)})}
         ok(t) == t[3] <= Len(RV(C, t[1]))
@@ -50,7 +51,7 @@ Info(C) ==
         child_multidim |-> Cardinality({p \in cm : MultiDim(C, MeshOf(C, V(p[1]).layer, p[1][1], V(p[1]).lvl), sg(p[1]), X(p[1]).mux.cm[p[2]])}),
         patch |-> Cardinality(pm),
         values |-> FoldSet(LAMBDA t, acc : acc + nvals(t), 0, {r \in recs : ok(r)}),
-        layers |-> NLayers(C)]
+        layers |-> NLayers(C), tuples |-> Len(C.tuples)]
 
 Emit == LET C == Cases[ci] IN PrintT(ToJson([id |-> C.id, fails |-> SetToSeq(Verdict(C)), info |-> Info(C)]))
 =============================================================================
